@@ -30,10 +30,23 @@ func knownWitnesses() []witness {
 	}
 
 	// --- numbers -----------------------------------------------------------------------------
-	ws = append(ws, witness{id: "C32-float-overflow", what: "a JSON number outside the double range is rejected or prints as valid JSON",
-		sql: "JSON_VALID(CAST(CAST('" + overflowNum + "' AS JSON) AS CHAR))", chk: wantInt(1), errOK: true})
-	ws = append(ws, witness{id: "C32-float-overflow", what: "same inside a document",
-		sql: "JSON_VALID(CAST(CAST('[1, -1e999]' AS JSON) AS CHAR))", chk: wantInt(1), errOK: true})
+	// (the printed form is inspected directly: JSON_VALID(<failing expression>) is 0, not an error)
+	validText := func(v any) string {
+		txt, ok := strOf(v)
+		if !ok {
+			return "printed form is not a string: " + txt
+		}
+		if p, err := parseOrdered(txt); err != nil {
+			return fmt.Sprintf("printed form %q does not parse: %v", txt, err)
+		} else if !parsedNumbersOK(p) {
+			return fmt.Sprintf("printed form %q holds a number outside the double range", txt)
+		}
+		return ""
+	}
+	ws = append(ws, witness{id: kfFloatOverflow, what: "a JSON number outside the double range is rejected or prints as valid JSON",
+		sql: "CAST(CAST('" + overflowNum + "' AS JSON) AS CHAR)", chk: validText, errOK: true})
+	ws = append(ws, witness{id: kfFloatOverflow, what: "same inside a document",
+		sql: "CAST(CAST('[1, -1e999]' AS JSON) AS CHAR)", chk: validText, errOK: true})
 	for _, t := range []string{"9223372036854775808.0", "9223372036854775807.0", "1.2345678901234567e19", "9.3e18"} {
 		j := "CAST('" + t + "' AS JSON)"
 		add("C32-print-double-2p63", "text round trip of the double "+t, "CAST(CAST("+j+" AS CHAR) AS JSON) = "+j, wantInt(1))
